@@ -7,6 +7,7 @@ import SimpleDnsModel.Generated.Envelope
 import SimpleDnsModel.Model.Match
 import SimpleDnsModel.Model.Pipeline
 import SimpleDnsModel.Model.Compress
+import SimpleDnsModel.Model.NameText
 import SimpleDnsModel.Props.TieEnvDefs
 namespace Dns.TieEnv
 open Dns
@@ -212,5 +213,31 @@ theorem name_write_source (n : Name) (off : Nat) (t : Table) :
     cases Table.find t (l :: rest) with
     | some p => simp [maskNamed]
     | none => simp [ih, cmpOf, boundNamed]
+
+/-! ### 23. how a name is shown (`Display for Name`, `Display for Label`) -/
+
+/-- `Display for Name` with what stands between two labels as a parameter (each label shown by its
+own `Display`: its octets, through `from_utf8_lossy`) -/
+def displayWith (sep : Bytes) : Name → Bytes
+  | [] => []
+  | [l] => l
+  | l :: rest => l ++ (sep ++ displayWith sep rest)
+
+/-- **a name is shown as the model shows it**: its labels' octets, a single `.` between two of them,
+nothing in front or behind, and nothing added to or changed in a label (a label's dots and
+backslashes are shown as they are; a `Display for Label` that quotes them, or another separator,
+unties the item or fails this) -/
+theorem name_display_source (n : Name) :
+    Gen.Env.nameDisplayLabel.getD "utf8-lossy" = "utf8-lossy" ∧
+    Name.display n = displayWith (labelBytes (Gen.Env.nameDisplaySep.getD ".")) n := by
+  have h : labelBytes (Gen.Env.nameDisplaySep.getD ".") = [46] := by decide
+  refine ⟨by decide, ?_⟩
+  rw [h]
+  induction n with
+  | nil => rfl
+  | cons l rest ih =>
+    cases rest with
+    | nil => rfl
+    | cons l2 rest2 => simp only [Name.display, displayWith, ih, List.singleton_append]
 
 end Dns.TieEnv
